@@ -146,7 +146,11 @@ Theorem c09_code_rtnext_sites_covered : map fst NEXT =
   ; "if#5"; "upd:iterator->_arg#0"                                                           (* site_rtnext_if5_arg *)
   ; "if#6"                                                                                   (* site_rtnext_switch *)
   ; "if#7"; "ret#2"                                                                          (* site_rtnext_if7, site_rtnext_bounds_below_header *)
-  ; "set:oui#0"; "set:subns#0"; "set:vnslen#0"                                               (* site_rtnext_vendor_loads, site_rtnext_oui_value *)
+  ; "set:oui#0"; "set:subns#0"                                                               (* site_rtnext_vendor_loads, site_rtnext_oui_value *)
+  ; "find_ns#0:set:iterator->current_namespace#0"; "find_ns#0:if#0"                          (* site_rtnext_find_ns (find_ns inlined: no vendor namespaces registered) *)
+  ; "find_ns#0:set:find_ns#0$i#0"; "find_ns#0:loop#0"; "find_ns#0:upd:find_ns#0$i#0"; "find_ns#0:if#1"; "find_ns#0:if#2"
+  ; "find_ns#0:set:iterator->current_namespace#1"                                            (* the search loop: not reached with _vns = NULL *)
+  ; "set:vnslen#0"                                                                           (* site_rtnext_vendor_loads *)
   ; "set:iterator->_next_ns_data#0"; "if#8"; "upd:size#0"                                    (* site_rtnext_vendor_sizes *)
   ; "set:iterator->this_arg_index#0"; "set:iterator->this_arg#0"; "set:iterator->this_arg_size#0"; "upd:iterator->_arg#1"
                                                                                              (* site_rtnext_this_arg *)
@@ -160,7 +164,7 @@ Theorem c09_code_rtnext_sites_covered : map fst NEXT =
   ; "set:iterator->_reset_on_ext#2"                                                          (* site_rtnext_ext_case *)
   ; "set:hit#1"; "upd:iterator->_bitmap_shifter#0"; "upd:iterator->_arg_index#1"             (* site_rtnext_next_entry *)
   ; "if#12"; "ret#4" ]                                                                       (* site_rtnext_if12; rtnext_after_switch1 *)
-  /\ length NEXT = 61%nat.
+  /\ length NEXT = 69%nat.
 Proof. exact rtnext_sites_covered. Qed.
 Print Assumptions c09_code_rtnext_sites_covered.
 
@@ -191,7 +195,7 @@ Print Assumptions c09_code_rtinit_sites_covered.
 
 (* what is NOT an evaluated site: the four gotos and their label in next; nothing in init (the pointer increments are sites since
    the translator scales them by the pointee's size, the while loop is an executable SLoop) *)
-Theorem c09_code_rtiter_not_sites : flat_map others body_ieee80211_radiotap_iterator_next = ["GotoStmt"; "GotoStmt"; "GotoStmt"; "GotoStmt"; "label next_entry"] /\
+Theorem c09_code_rtiter_not_sites : flat_map others body_ieee80211_radiotap_iterator_next = ["goto next_entry"; "goto next_entry"; "ContinueStmt"; "ContinueStmt"; "goto next_entry"; "goto next_entry"; "label next_entry"] /\
   flat_map others body_ieee80211_radiotap_iterator_init = [].
 Proof. exact rtiter_not_sites. Qed.
 Print Assumptions c09_code_rtiter_not_sites.
@@ -476,3 +480,38 @@ Theorem c09_code_rtinit_refines_model : forall buf h, wfbytes buf -> 0 < h -> h 
                end).
 Proof. exact code_rtinit_refines_model. Qed.
 Print Assumptions c09_code_rtinit_refines_model.
+
+(* ---------------------------------------------------------------------------------------------------------------
+   ieee80211_radiotap_iterator_next AS TRANSLATED is executable by Base/CGoto.v's execg - exec plus forward gotos: a jump out of a
+   compound statement continues behind the label found in the rest of the enclosing list or in the default group of a switch of it
+   (find_ns is inlined at its call site).  Proofs/CodeRadiotapNextPass.v, for ALL values in range:
+   WHERE goto next_entry lands (computed from the translated body), the -ENOENT exit, and the whole pass over an absent argument:
+   the jump lands behind the label, shifter >> 1, index + 1, `if (hit)` not taken, and the loop makes its next pass from exactly
+   the model's shift_next state with one unit of fuel less.  (The passes that report a field are covered per named site above and
+   executed by the kernel on every run's sampled headers: Proofs/CodeRadiotapNextRun.v, lib/xcheck.py.) *)
+From LW Require Import Base.CGoto Proofs.CodeRadiotapNextPass.
+
+Theorem c09_code_rtnext_goto_landing :
+  landing "next_entry" rtnext_tail7 = Some (SSwitch "switch#1" (CLit (mkty true 32) 0) [] next_entry_tail :: after_switch1) /\
+  next_entry_tail =
+    [SSet "upd:iterator->_bitmap_shifter#0" "iterator->_bitmap_shifter" (site NEXT "upd:iterator->_bitmap_shifter#0");
+     SSet "upd:iterator->_arg_index#1" "iterator->_arg_index" (site NEXT "upd:iterator->_arg_index#1")] /\
+  after_switch1 = [SIf "if#12" (site NEXT "if#12") [SRet "ret#4" (Some (site NEXT "ret#4"))] []].
+Proof. split; [exact landing_next_entry | split; reflexivity]. Qed.
+Print Assumptions c09_code_rtnext_goto_landing.
+
+Theorem c09_code_rtnext_enoent : forall m rho tr idx sh F,
+  rho "iterator->_arg_index" = idx -> rho "iterator->_bitmap_shifter" = sh -> 0 <= idx < 2 ^ 31 -> 0 <= sh < 2 ^ 32 ->
+  idx mod 32 = c_IEEE80211_RADIOTAP_EXT -> Z.odd sh = false ->
+  execg (10 + F) m rho tr body_ieee80211_radiotap_iterator_next = GReturned (Some (- ENOENT)) (locals0 rho) tr.
+Proof. exact rtnext_code_enoent. Qed.
+Print Assumptions c09_code_rtnext_enoent.
+
+Theorem c09_code_rtnext_absent_pass : forall m rho tr idx sh F,
+  rho "iterator->_arg_index" = idx -> rho "iterator->_bitmap_shifter" = sh -> 0 <= idx < 2 ^ 31 - 1 -> 0 <= sh < 2 ^ 32 ->
+  idx mod 32 <> c_IEEE80211_RADIOTAP_EXT -> Z.odd sh = false ->
+  execg (14 + F) m rho tr body_ieee80211_radiotap_iterator_next =
+  execg (13 + F) m (upd (upd (locals0 rho) "iterator->_bitmap_shifter" (Z.shiftr sh 1)) "iterator->_arg_index" (idx + 1)) tr
+        body_ieee80211_radiotap_iterator_next.
+Proof. exact rtnext_code_absent_pass. Qed.
+Print Assumptions c09_code_rtnext_absent_pass.
